@@ -971,6 +971,13 @@ def run(tier):
                                                   "hypothesis of C11_total / C11_tokens_preserved; search found no "
                                                   "failing input"}, found_input=False)
             model_ok = False
+    if model_ok:
+        # round 3: per-handler probes — the model reproduces the committed probe reference, the
+        # real registry entries are run on the same arguments; functions that were renamed but
+        # reproduce the model's handler of their productions are listed
+        from harness.translate import fmt_probe
+        fmt_probe.verify(chk, common.Model("model_c11"), fmt_table.registry())
+    chk.extra["renamed_handlers"] = dict(fmt_table.RENAMED)
     st = State(chk, tier)
     r = common.rng("C11")
     quick = tier == "quick"
